@@ -177,6 +177,11 @@ def gen_configs(tier, rng):
         add(sched, "single", 3, "fresh", [], None)
         add(sched, "single", 4, "partial", [2, 3], None)
         add(sched, "array", 3, "complete", [1, 2, 3], None)
+    # crops laid out by a batch COUNT that exceeds the number of settings (the crop then has one batch per setting)
+    for sched in SCHEDS:
+        for mode in MODES:
+            add(sched, mode, 1, "fresh", [], None)
+            cfgs[-1]["layout"] = "count-over"
     # resource spellings
     k = 0
     for name, _, only in sp:
@@ -236,7 +241,10 @@ def _prepare(cfg, root, rel):
     name = f"k{cfg['id']}"
     B = cfg["B"]
     combos = {"a": list(range(B)), "b": [0, 1]}
-    crop = xyzpy.Crop(fn=c16fn.fn, name=name, parent_dir=rel if rel is not None else d, batchsize=2)
+    layout = {"batchsize": 2}
+    if cfg.get("layout") == "count-over":
+        layout = {"num_batches": 2 * B + 1}
+    crop = xyzpy.Crop(fn=c16fn.fn, name=name, parent_dir=rel if rel is not None else d, **layout)
     crop.sow_combos(combos, verbosity=0)
     if cfg["pre"]:
         crop.grow(tuple(cfg["pre"]), verbosity=0)
@@ -579,7 +587,7 @@ def pipeline(c, cfgs, root, workers=8):
 
 
 def sample_of(cfg, st):
-    s = {k: cfg.get(k) for k in ("sched", "mode", "B", "state", "pre", "ids", "res", "cli", "int_ids")}
+    s = {k: cfg.get(k) for k in ("sched", "mode", "B", "state", "pre", "ids", "res", "cli", "int_ids", "relative", "layout")}
     s.update({"intended": st.get("intended"), "header_range": st.get("range"), "grown_per_run": st.get("per_run"),
               "ids_in_program": (st.get("observed_text") or {}).get("ids"), "cli_grown": st.get("cli_grown"),
               "generation_error": st.get("gen_error")})
@@ -613,7 +621,7 @@ def run(tier, seed):
         pairs, metas = [], []
         for cfg in cfgs:
             st = sts[cfg["id"]]
-            sig = json.dumps([cfg.get(k) for k in ("sched", "mode", "B", "state", "pre", "ids", "res", "cli", "int_ids")])
+            sig = json.dumps([cfg.get(k) for k in ("sched", "mode", "B", "state", "pre", "ids", "res", "cli", "int_ids", "relative", "layout")])
             nontrivial = bool(st.get("intended")) and (cfg["B"] >= 2 or cfg["state"] != "fresh")
             c.case(sig, nontrivial=nontrivial, sample=sample_of(cfg, st))
             c.count("scheduler", cfg["sched"]); c.count("mode", cfg["mode"]); c.count("state", cfg["state"])
